@@ -90,6 +90,10 @@ Step ==
                   /\ CASE i.k = "d"     -> pc' = pc + 1 /\ d' = d + i.n /\ UNCHANGED <<x, xu, al>>
                        [] i.k = "x"     -> pc' = pc + 1 /\ x' = (IF xu THEN x ELSE x + i.n) /\ UNCHANGED <<d, xu, al>>
                        [] i.k = "xinit" -> pc' = pc + 1 /\ x' = 0 /\ xu' = FALSE /\ UNCHANGED <<d, al>>
+                       \* `and $-16, %rsp`: the post-prologue rsp is 16-aligned (frames are multiples of 16, checked
+                       \* by "frame-misaligned"), so the parity of the absolute displacement d - m0 is the alignment:
+                       \* aligned: nothing happens; otherwise one more 8-byte word is taken (and nobody gives it back).
+                       [] i.k = "align16" -> pc' = pc + 1 /\ d' = (IF (d - m0) % 2 = 0 THEN d ELSE d - 1) /\ UNCHANGED <<x, xu, al>>
                        [] i.k = "base"  -> pc' = pc + 1 /\ d' = 0 /\ UNCHANGED <<x, xu, al>>
                        [] i.k = "reset" -> pc' = pc + 1 /\ d' = 0 /\ UNCHANGED <<x, xu, al>>
                        [] i.k = "call"  -> pc' = pc + 1 /\ x' = (IF xu \/ i.m = 1 THEN 0 ELSE x + i.n) /\ xu' = (xu \/ i.m = 1) /\ UNCHANGED <<d, al>>
